@@ -1,6 +1,7 @@
 package proj
 
 import (
+	"runtime/debug"
 	"bytes"
 	"fmt"
 	"os"
@@ -71,7 +72,7 @@ func RunSession(session *hermes.HermesSession, root string, args []string, logID
 	func() {
 		defer func() {
 			if r := recover(); r != nil {
-				res.Panic = fmt.Sprint(r)
+				res.Panic = fmt.Sprint(r) + panicSite()
 			}
 		}()
 		session.Run(root, args, logID, out, logc)
@@ -125,7 +126,7 @@ func RunDisk(root string, args []string, resultDir string) *RunResult {
 	func() {
 		defer func() {
 			if r := recover(); r != nil {
-				res.Panic = fmt.Sprint(r)
+				res.Panic = fmt.Sprint(r) + panicSite()
 			}
 		}()
 		session.Run(root, args, "[0]", out, logc)
@@ -149,4 +150,26 @@ func RunDisk(root string, args []string, resultDir string) *RunResult {
 		}
 	}
 	return res
+}
+
+// panicSite names the innermost frames of the repository's code on the panicking goroutine's stack.
+func panicSite() string {
+	st := string(debug.Stack())
+	var out []string
+	for _, l := range strings.Split(st, "\n") {
+		l = strings.TrimSpace(l)
+		if strings.Contains(l, "/hermes/") && strings.Contains(l, ".go:") {
+			if i := strings.Index(l, " +0x"); i > 0 {
+				l = l[:i]
+			}
+			out = append(out, filepath.Base(l))
+			if len(out) == 4 {
+				break
+			}
+		}
+	}
+	if len(out) == 0 {
+		return ""
+	}
+	return " (at " + strings.Join(out, " < ") + ")"
 }
